@@ -34,7 +34,8 @@ type faultPlan struct {
 	attempts map[string]int
 	pending  map[string][]string
 	calls    int
-	Log      []string `json:"log"` // "stage:segment#attempt=kind"
+	Log      []string `json:"log"`     // "stage:segment#attempt=kind"
+	MaxConc  uint64   `json:"maxconc"` // concurrency limit of the tier2 node (0 = none): a full node REALLY refuses calls
 }
 
 // next: which fault (if any) hits this ProcessRange call.  Faults["#k"] = kinds: the job reached by the k-th call of the
@@ -56,6 +57,8 @@ func (p *faultPlan) next(stage uint32, segment uint64) string {
 	kind := ""
 	if q := p.pending[key]; len(q) > 0 {
 		kind, p.pending[key] = q[0], q[1:]
+	} else if k, ok := p.Faults["*first"]; ok && i == 0 && len(k) > 0 {
+		kind = k[0] // the first attempt of EVERY job
 	}
 	p.Log = append(p.Log, fmt.Sprintf("%s#%d=%s", key, i, kind))
 	return kind
@@ -138,6 +141,9 @@ func startTier2(plan *faultPlan) (client.InternalClientFactory, func()) {
 		return &linearStream{h: h, start: uint64(start), end: stop}, nil
 	})
 	service.WithReadinessFunc(func(bool) {})(svc)
+	if plan.MaxConc > 0 {
+		service.WithMaxConcurrentRequests(plan.MaxConc)(svc)
+	}
 	pbssinternal.RegisterSubstreamsServer(srv, svc)
 	go srv.Serve(lis)
 	factory := func() (pbssinternal.SubstreamsClient, func() error, []grpc.CallOption, client.Headers, error) {
@@ -192,6 +198,10 @@ func runFaults(a *args, r *rand.Rand, root string, i int) {
 		cfg.LibOK, cfg.Lib = true, cfg.Stop+uint64(r.Intn(10))
 		cfg.Label = fmt.Sprintf("faults/transient/%d", k)
 		plan := &faultPlan{Faults: map[string][]string{}}
+		if r.Intn(3) == 0 { // a tier2 node with room for one job at a time and several workers: genuine "overloaded" refusals
+			plan.MaxConc = 1
+			cfg.Workers = 2 + r.Intn(2)
+		}
 		nf := 1 + r.Intn(3)
 		for f := 0; f < nf; f++ {
 			key := fmt.Sprintf("#%d", r.Intn(6)) // the n-th ProcessRange call of the request, whatever job it is (retries included)
@@ -212,17 +222,29 @@ func runFaults(a *args, r *rand.Rand, root string, i int) {
 		cfg.Workers = 1 + r.Intn(2)
 		cfg.Stop = uint64(cfg.Start) + 3 + uint64(r.Intn(2*int(seg)+2))
 		cfg.LibOK, cfg.Lib = true, cfg.Stop+uint64(r.Intn(6))
-		failAt := uint64(cfg.Start) + uint64(r.Intn(int(cfg.Stop-uint64(cfg.Start))))
-		if failAt < prog[0].Init {
-			failAt = prog[0].Init
+		si := 0
+		for j, m := range fp {
+			if m.Name == "m_src" {
+				si = j
+			}
 		}
-		m0 := fp[0]
+		failAt := uint64(cfg.Start) + uint64(r.Intn(int(cfg.Stop-uint64(cfg.Start))))
+		if failAt < fp[si].Init {
+			failAt = fp[si].Init
+		}
+		m0 := fp[si]
 		m0.Body.FailAt = int64(failAt)
-		fp[0] = m0
+		fp[si] = m0
 		env := newSysEnv(filepath.Join(root, fmt.Sprintf("f%d-d%v", i, prod)), fp)
 		os.MkdirAll(env.dir, 0755)
 		cfg.Label = fmt.Sprintf("faults/deterministic/%v", prod)
-		emitFaultRun(a, env, cfg, &faultPlan{Faults: map[string][]string{}}, int64(failAt))
+		dplan := &faultPlan{Faults: map[string][]string{}}
+		if prod && r.Intn(2) == 0 {
+			// both halves on one job: every job is hit by a transient fault on its first attempt, the retried job then reaches
+			// the deterministically failing block
+			dplan.Faults["*first"] = []string{[]string{"unavailable_before_call", "server_send_fails", "dropped_midway"}[r.Intn(3)]}
+		}
+		emitFaultRun(a, env, cfg, dplan, int64(failAt))
 		os.RemoveAll(env.dir)
 	}
 }
